@@ -282,10 +282,11 @@ fn any_case(id: &str, ty: &str, b: &[u8]) -> Value {
         // icmp4 timestamps decode only from a slice that ends with the header: the re-encoding does
         b2i(a && r)
     };
-    let sl = match Any::from_slice(ty, b) { Ok((v, _)) => vec![1, stable(&v)], Err(_) => vec![0, -1] };
+    let mut sre: Vec<u8> = vec![];
+    let sl = match Any::from_slice(ty, b) { Ok((v, _)) => { sre = v.bytes(); vec![1, stable(&v)] } Err(_) => vec![0, -1] };
     let mut c = Cursor::new(b);
     let rd = match Any::read(ty, &mut c) { Ok(v) => vec![1, stable(&v)], Err(_) => vec![0, -1] };
-    json!({"ev": "wire_any", "id": id, "type": ty, "bytes": b, "slice": sl, "read": rd})
+    json!({"ev": "wire_any", "id": id, "type": ty, "bytes": b, "slice": sl, "read": rd, "sre": sre})
 }
 
 pub fn run_case(id: &str, c: &Value) -> Value {
